@@ -21,6 +21,7 @@ import (
 	"encoding/json"
 	"fmt"
 	"strconv"
+	"sync"
 	"time"
 
 	"go.uber.org/zap"
@@ -186,6 +187,15 @@ func (multiSource *MultiSource) processDependency(ctx context.Context, dep Depen
 		return fmt.Errorf("detecting changes in dependency dataset %+v failed, %w", dep, err)
 	}
 
+	// the query goroutines started below belong to this call: whichever way it returns, they are told to stop and
+	// waited for (one that is left behind keeps querying the store, also after the job has ended or the store was closed)
+	ctx, cancel := context.WithCancel(ctx)
+	var producers sync.WaitGroup
+	defer func() {
+		cancel()
+		producers.Wait()
+	}()
+
 	queryTime := time.Now().UnixNano()
 	entities := make([]*server.Entity, 0)
 	// go through joins in sequence
@@ -202,14 +212,31 @@ func (multiSource *MultiSource) processDependency(ctx context.Context, dep Depen
 		}
 		datasets := multiSource.Store.DatasetsToInternalIDs([]string{prevDataset, join.Dataset})
 		prevDataset = join.Dataset
+		producers.Add(1)
 		go func() {
+			defer producers.Done()
 			defer close(joinLvlChan)
 			defer close(errChan)
+			// nobody listens any more once the call has returned
+			send := func(id uint64) bool {
+				select {
+				case joinLvlChan <- id:
+					return true
+				case <-ctx.Done():
+					return false
+				}
+			}
+			sendErr := func(err error) {
+				select {
+				case errChan <- err:
+				case <-ctx.Done():
+				}
+			}
 
 			// we go through all changed entities in the current join
 			for _, rid := range currentStartPoints {
 				if ctx.Err() != nil {
-					errChan <- ctx.Err()
+					sendErr(ctx.Err())
 					return
 				}
 				// 1. build a RelatedFrom query input
@@ -231,19 +258,21 @@ func (multiSource *MultiSource) processDependency(ctx context.Context, dep Depen
 				nextRelatedFrom := relatedFrom
 			repeatQuery:
 				if ctx.Err() != nil {
-					errChan <- ctx.Err()
+					sendErr(ctx.Err())
 					return
 				}
 				// 2. run query
 				relatedEntities, cont, err4 := multiSource.Store.GetRelatedAtTime(nextRelatedFrom, batchSize)
 				if err4 != nil {
-					errChan <- err4
+					sendErr(err4)
 					return
 				}
 
 				// 3. put all query results onto channel
 				for _, r := range relatedEntities {
-					joinLvlChan <- r.EntityID
+					if !send(r.EntityID) {
+						return
+					}
 				}
 				// 4. if query result contained a continuation token, repeat from 2.
 				if cont != nil {
@@ -265,7 +294,7 @@ func (multiSource *MultiSource) processDependency(ctx context.Context, dep Depen
 						// with the respective recorded times of each change
 						changes, err5 := depDataset.GetChanges(since, 1, false)
 						if err5 != nil {
-							errChan <- err5
+							sendErr(err5)
 							return
 						}
 						if len(changes.Entities) > 0 {
@@ -275,17 +304,19 @@ func (multiSource *MultiSource) processDependency(ctx context.Context, dep Depen
 							prevRelatedFrom.At = timestamp
 						repeatPrevQuery:
 							if ctx.Err() != nil {
-								errChan <- ctx.Err()
+								sendErr(ctx.Err())
 								return
 							}
 							// same query paging logic as lines 213-227, just different point in time. duplicates may be put onto channel here
 							prevRelatedEntities, c, err6 := multiSource.Store.GetRelatedAtTime(prevRelatedFrom, batchSize)
 							if err6 != nil {
-								errChan <- fmt.Errorf("previous GetRelatedAtTime failed for Join %+v at timestamp %v, %w", join, timestamp, err6)
+								sendErr(fmt.Errorf("previous GetRelatedAtTime failed for Join %+v at timestamp %v, %w", join, timestamp, err6))
 								return
 							}
 							for _, r := range prevRelatedEntities {
-								joinLvlChan <- r.EntityID
+								if !send(r.EntityID) {
+									return
+								}
 							}
 							if c != nil {
 								prevRelatedFrom = c
